@@ -215,23 +215,12 @@ func (s *FileSequence) Split() FileSequences {
 		return FileSequences{s.Copy()}
 	}
 
-	var buf strings.Builder
-
-	// Write the dir and base components once
-	buf.WriteString(s.dir)
-	buf.WriteString(s.basename)
-
+	// Each part is a copy that only differs by its frame range
 	list := make(FileSequences, len(franges))
-	var seq *FileSequence
 	for i, frange := range franges {
-		buf.WriteString(frange)
-		buf.WriteString(s.padChar)
-		buf.WriteString(s.ext)
-
-		seq, _ = NewFileSequence(buf.String())
+		seq := s.Copy()
+		seq.SetFrameRange(frange)
 		list[i] = seq
-
-		buf.Reset()
 	}
 	return list
 }
@@ -507,8 +496,15 @@ func (s *FileSequence) String() string {
 
 // Copy returns a copy of the FileSequence
 func (s *FileSequence) Copy() *FileSequence {
-	seq, _ := NewFileSequence(s.String())
-	return seq
+	seq := *s
+	if s.frameSet != nil {
+		// A FrameSet caches values as they are requested,
+		// so don't share it with the copy
+		if frameSet, err := NewFrameSet(s.frameSet.FrameRange()); err == nil {
+			seq.frameSet = frameSet
+		}
+	}
+	return &seq
 }
 
 // FileSequences is a slice of FileSequence pointers, which can be sorted
